@@ -222,6 +222,14 @@ func c07Ops() []histOp {
 		decOp("TR:dec(truncated after required fields)", tr, trOK[:len(trOK)-2], nil), decOp("TR:dec(only field 1)", tr, ref.Encode(wtrOpt, trv(1, 0, 0)), nil))
 	ops = append(ops, encOps("TR", tr, ref.Decode(tr, trOK, nil, ref.DecOpts{}).V)[1:3]...)
 
+	// TQ: required fields far from everybody else's ids (another word of any presence set)
+	{
+		tq := mk(fd(1, D, sc(ref.KI32)), fd(200, R, sc(ref.KI32)), fd(4000, R, sc(ref.KString)))
+		tqv := &ref.Val{K: ref.KStruct, F: []*ref.Val{ref.Int(ref.KI32, 1), ref.Int(ref.KI32, 2), ref.Str("q")}}
+		ops = append(ops, decOp("TQ:dec(complete)", tq, ref.Encode(tq, tqv), nil))
+		wq := mk(fd(1, D, sc(ref.KI32)), fd(4000, D, sc(ref.KString)))
+		ops = append(ops, decOp("TQ:dec(required 200 missing)", tq, ref.Encode(wq, &ref.Val{K: ref.KStruct, F: []*ref.Val{ref.Int(ref.KI32, 1), ref.Str("q")}}), nil))
+	}
 	// TU: unknown-field holder
 	tu := mk(fd(1, D, sc(ref.KI32)), fd(3, O, universe.StPtr(func() *ref.Struct { s := mk(fd(1, D, sc(ref.KI8))); s.Unknown = true; return s }())))
 	tu.Unknown = true
@@ -326,7 +334,7 @@ var c07Solo map[int]string
 
 // operations of the long-history phase (by name in the operation alphabet)
 var c07LongOps = []string{"TR:dec(complete)", "TR:dec(top required 64 missing)", "TR:dec(only field 1)", "TR:dec(truncated after required fields)",
-	"TU:dec(13 unknown fields)", "TU:dec(no unknown fields)", "TM:dec(full)", "TM:dec(sparse)"}
+	"TU:dec(13 unknown fields)", "TU:dec(no unknown fields)", "TM:dec(full)", "TM:dec(sparse)", "TQ:dec(complete)", "TQ:dec(required 200 missing)"}
 
 func c07LongN(tier universe.Tier) int {
 	if tier == universe.Thorough {
@@ -355,7 +363,18 @@ func c07Long(c *explore.C, tier universe.Tier) {
 	x := idx(c07LongOps[c.Choose(len(c07LongOps), explore.Data, "first")])
 	y := idx(c07LongOps[c.Choose(len(c07LongOps), explore.Data, "repeated")])
 	z := idx(c07LongOps[c.Choose(len(c07LongOps), explore.Data, "last")])
-	n := 1 + c.Choose(c07LongN(tier), explore.Data, "repetitions")
+	// every n up to the bound, then the neighbourhoods of 2^k up to 2^16 (8- and 16-bit counters and epochs);
+	// the long runs only for the triples in which the first and the last call are on the same type
+	ns := c07LongN(tier)
+	extra := []int{511, 512, 513, 1023, 1024, 1025, 4095, 4096, 4097, 32767, 32768, 32769, 65534, 65535, 65536, 65537}
+	k := c.Choose(ns+len(extra), explore.Data, "repetitions")
+	n := 1 + k
+	if k >= ns {
+		n = extra[k-ns]
+		if ops[x].name[:3] != ops[z].name[:3] || (tier != universe.Thorough && ops[y].name[:3] == ops[x].name[:3] && n > 5000) {
+			explore.SkipExecution()
+		}
+	}
 	harness.Cur.Crumb(c.Choices())
 	hooks.Reset()
 	hist := fmt.Sprintf("%s, then %d x %s, then %s", ops[x].name, n, ops[y].name, ops[z].name)
@@ -368,6 +387,10 @@ func c07Long(c *explore.C, tier universe.Tier) {
 		return
 	}
 	for i := 0; i < n; i++ {
+		if n > 2000 && i%997 != 0 && i < n-3 {
+			ops[y].exec() // long runs: the repeated call's result is rendered and compared on a sample only
+			continue
+		}
 		if got := ops[y].run(); got != c07Solo[y] {
 			bad(2+i, y, got)
 			return
@@ -399,7 +422,7 @@ func init() {
 				Body:  func(c *explore.C) { c07Body(c, length) },
 			}, {
 				Name: "long-histories",
-				Rule: fmt.Sprintf("all histories X Y^n Z with X, Y, Z from %d decode operations (success, required-field failure, truncation failure, unknown fields, map scratch values) and every n in 1..%d (covers counters, epochs and free lists of up to that many uses); default pool answers; every call compared with the same call made first in a fresh process", len(c07LongOps), c07LongN(tier)),
+				Rule: fmt.Sprintf("all histories X Y^n Z with X, Y, Z from %d decode operations (success, required-field failure, truncation failure, unknown fields, map scratch values) and every n in 1..%d plus the neighbourhoods of 2^9..2^16 (counters, epochs and free lists of up to 65 537 uses); default pool answers; every call compared with the same call made first in a fresh process", len(c07LongOps), c07LongN(tier)),
 				Body: func(c *explore.C) { c07Long(c, tier) },
 			}}
 		},
